@@ -254,6 +254,12 @@ def rule_char_counting(r, p):
             # the loop breaks when no character budget is left
             zero = [SwitchInfo(fl, b["id"]) for b in fl.blocks if b["term"]["k"] == "switch" and b["id"] in fl.reachable_blocks() and fl.in_loop(b["id"]) and (cmp_nf(SwitchInfo(fl, b["id"]).discr, True) or (None,))[0] == "Eq"]
             r.require(len(zero) == 1 and ("const", "int", 0) in [deep_strip(x) for x in cmp_nf(zero[0].discr, True)[1:]], "stops-when-budget-exhausted", fn=f, detail="loop exit on remaining == 0")
+            if len(zero) == 1:
+                tz = zero[0].target_of(True)
+                back = tz is not None and zero[0].b in fl.reach(tz, include_src=True)
+                r.require(tz is not None and not back, "exhausted-budget-leaves-the-loop", fn=f,
+                          detail="from the remaining == 0 edge no path returns to the test: the first character past the budget ends the scan, whatever it is",
+                          fail_detail="from the remaining == 0 edge the scan can go on to later characters (a path leads back to the test): some characters past the maximum width are let through, so more than M characters are emitted")
 
 
 def rule_counts_consumed(r, p):
